@@ -459,6 +459,19 @@ def install(fault=None):
     TG.update, TG.stop = tg_update, tg_stop
     TG.start, TG.reset = tg_start, tg_reset
 
+    # ---- ddmin: one application of a mutator (DdminOuter.tla) -----------
+    real_apply_mut = sd._apply_mutator
+
+    def _apply_mutator(mutator, exprs, max_depth=None, *a, **kw):
+        emit('apply_begin', mut=type(mutator).__name__, max_depth=max_depth,
+             nexprs=nodes.count_exprs(exprs))
+        res = real_apply_mut(mutator, exprs, max_depth, *a, **kw)
+        emit('apply_end', tests=res[1], reduced=res[2],
+             nexprs=nodes.count_exprs(res[0]))
+        return res
+
+    sd._apply_mutator = _apply_mutator
+
     # ---- reduplicate (C13) ----------------------------------------------
     real_redup = nodes.reduplicate
 
